@@ -21,6 +21,26 @@ import (
 
 var flagMode = flag.String("mode", "all", "spec | stream | sis | all")
 
+// observe records a behaviour that the property statement does not forbid (lead's triage): it is counted and
+// described in the evidence file (extra: observed/<key>, observed-detail/<key>) but is never a violation.
+var observedOnce sync.Map
+
+func observe(c *mon.Ctx, op, key string, ok bool, detail func() string) bool {
+	c.Eval("observation/"+op, 1)
+	if ok {
+		return true
+	}
+	c.AddExtra("observed/"+key, 1)
+	if _, dup := observedOnce.LoadOrStore(key, true); !dup {
+		d := detail()
+		if len(d) > 1500 {
+			d = d[:1500] + "..."
+		}
+		c.Extra("observed-detail/"+key, d)
+	}
+	return false
+}
+
 type task struct {
 	name string
 	fn   func()
@@ -69,7 +89,8 @@ var aliasScripts = map[string][]string{
 	"Write-argument-mutated-afterward":    {"W:0", "clobber", "Sum0", "W:1", "clobber", "Sum0"},
 }
 
-// aliasChecks runs each script on two hashers: on the first one every slice exchanged with the hasher in the
+// aliasChecks (observations only, not violations: the property does not quantify over caller-side mutation)
+// runs each script on two hashers: on the first one every slice exchanged with the hasher in the
 // previous step is overwritten by the caller ("clobber"), on the second one it is not. All later outputs must agree.
 func aliasChecks(c *mon.Ctx, ch *chain, st *streamer) {
 	names := make([]string, 0, len(aliasScripts))
@@ -93,7 +114,7 @@ func aliasChecks(c *mon.Ctx, ch *chain, st *streamer) {
 				h := con()
 				var last []byte  // the slice most recently exchanged with the hasher
 				var saved []byte // State() copy
-				c.Guard(key+"/panic", func() string { return fmt.Sprintf("%v (constructor %d)", script, ci) }, func() {
+				pan, pv := mon.Try(func() {
 					for _, s := range script {
 						switch {
 						case s == "Sum0":
@@ -130,12 +151,15 @@ func aliasChecks(c *mon.Ctx, ch *chain, st *streamer) {
 						}
 					}
 				})
+				if pan {
+					outs[w] = append(outs[w], []byte(fmt.Sprintf("panic:%v", pv)))
+				}
 			}
 			same := len(outs[0]) == len(outs[1])
 			for i := 0; same && i < len(outs[0]); i++ {
 				same = bytes.Equal(outs[0][i], outs[1][i])
 			}
-			c.Check("alias", key, same, func() string {
+			observe(c, "alias", key, same, func() string {
 				return fmt.Sprintf("script %v (constructor %d): outputs with the caller overwriting its slices %x, without %x", script, ci, outs[0], outs[1])
 			})
 		}
